@@ -26,6 +26,12 @@ Definition fkind_of (sc : scope) (w : wrap) : option fkind :=
 
 Section Rel.
   Variable clean : text -> text.         (* inspect.cleandoc *)
+  Variable vals : bool.                  (* also relate the stored right-hand side with the bound value (strict subset) *)
+
+  (* the literal pydoctor remembers for a variable (Attribute.value) is the literal whose value Python has bound --
+     not claimed for instance variables, whose value is set in methods *)
+  Definition val_rel (k : akind) (va : option aval) (v : option value) : Prop :=
+    k = KInstanceVar \/ forall l, va = Some (AvLit l) -> v = Some l.
 
   (* agree_obj sc o v : the documentable o describes the Python object v found in a namespace of kind sc
      agree_ns sc c e  : the documented contents c are the definitions of namespace e:
@@ -39,7 +45,7 @@ Section Rel.
       d = option_map clean d' -> agree_ns ScClass c ns ->
       (sc = ScModule -> x = x') ->        (* EXCEPTION iff issubclass(cls, BaseException): for classes bound at module level *)
       agree_obj sc (OClass x d c oo ih) (VClass x' d' ns)
-  | AgData : forall sc k d an va v, k <> KProperty -> agree_obj sc (OAttr k d an va) (VData v)
+  | AgData : forall sc k d an va v, k <> KProperty -> (vals = true -> val_rel k va v) -> agree_obj sc (OAttr k d an va) (VData v)
   with agree_ns : scope -> contents_t -> env -> Prop :=
   | AgNs : forall sc c e,
       NoDup (keys c) ->
